@@ -359,6 +359,12 @@ def eval_pair(t: Term, ta: int, tb: int, type_of, loopvar: Term) -> Any:
     """Concrete value of a selector term for one pair: centre i of species ta, neighbour j of species tb.
     `type_of(term)` returns 'i' / 'j' / None for particle_type reads."""
     k = t[0]
+    if k == "weights01":
+        # histogram weights used as a selection: they must be exactly 0 / 1 (or truth values) for the pair
+        v = eval_pair(t[1], ta, tb, type_of, loopvar)
+        if isinstance(v, bool) or v in (0, 1):
+            return bool(v)
+        raise Undecidable(f"histogram weight {v!r} is not a 0/1 selection")
     who = type_of(t)
     if who == "i":
         return ta
@@ -502,8 +508,9 @@ def make_type_of(snap: Term, loopvar: Term, also=()):
 
 
 # ------------------------------------------------------------------ histogram call description
-def hist_info(call: Term) -> Dict[str, Any]:
-    """np.histogram(data[, mask], bins=, range=, weights=)"""
+def hist_info(call: Term, weights_as_mask: bool = False) -> Dict[str, Any]:
+    """np.histogram(data[, mask], bins=, range=, weights=).  weights_as_mask: a 0/1 weight array is a selection (the caller
+    must check that it evaluates to a truth value or to 0/1 for every pair)."""
     if call[0] != "call" or call[1] != "numpy.histogram":
         raise Undecidable("not a histogram call")
     data = call[2][0] if call[2] else kw(call, "a")
@@ -513,8 +520,11 @@ def hist_info(call: Term) -> Dict[str, Any]:
         data = data[1]
     elif data is not None and data[0] == "call" and data[1] in ("numpy.compress", "numpy.extract") and len(data[2]) == 2:
         mask, data = data[2][0], data[2][1]
+    weights = kw(call, "weights", 4)
+    if weights_as_mask and weights is not None and mask is None:
+        mask, weights = ("weights01", weights), None
     return {"data": data, "mask": mask, "bins": kw(call, "bins", 1), "range": kw(call, "range", 2),
-            "weights": kw(call, "weights", 4)}
+            "weights": weights}
 
 
 NON_WRAPPING = {"numpy.arccos", "numpy.arctan2", "numpy.arctan", "numpy.linalg.norm", "numpy.sqrt", "numpy.sum", ".sum", "numpy.square",
